@@ -121,7 +121,7 @@ class Check(PropertyCheck):
         def run(case):
             obs = self._impl(case); return obs, self.oracle(case, obs)
         def forged(case, obs, mut):
-            o = json.loads(json.dumps(obs)); mut(o); return o, self.oracle(case, o)
+            o = json.loads(json.dumps(obs)); o.pop("diffs", None); mut(o); return o, self.oracle(case, o)
         def setdata(h):
             def m(o): o["back"]["rr"][0][0][4] = h
             return m
@@ -603,12 +603,14 @@ class Check(PropertyCheck):
                              "dj": "obj" if isinstance(dj, dict) else "s:" + cps(dj),
                              "enc": "none" if pe is None else "b:" + hx(pe), "back": bk})
             obs["recs"] = recs
+            obs["diffs"] = [list(x) for x in self.dns_diffs(case, obs)]     # classified once, here
             return obs
         raise ValueError(kind)
 
     # ---------------------------------------------------------------- oracle
     def dns_diffs(self, case, obs):
         """(finding-id-or-None, description) for every way the decoded re-encoding differs from the original"""
+        if "diffs" in obs: return [tuple(x) for x in obs["diffs"]]
         o, b = obs["orig"], obs.get("back")
         out = []
         if b is None:
